@@ -22,6 +22,10 @@ pub enum LitForm {
     ULong,
     /// `\n \t \r \f \v \a`
     Special,
+    /// an unescaped `.` as an item of a bracketed class (`[.]`, `[a.]`): scnr gives it the meaning
+    /// it has outside brackets - everything except \n and \r (match_function.rs,
+    /// `TryFrom<&Literal>`) - and the reference follows it. Only ever combined with the character '.'
+    BareDot,
 }
 
 #[derive(Debug, Clone, Copy, PartialEq, Eq, Hash, PartialOrd, Ord)]
@@ -188,6 +192,13 @@ fn print_lit(out: &mut String, c: char, form: &LitForm, in_class: bool) {
     };
     let cp = c as u32;
     match form {
+        LitForm::BareDot => {
+            if in_class && c == '.' {
+                out.push('.');
+            } else {
+                print_lit(out, c, &LitForm::Verbatim, in_class);
+            }
+        }
         LitForm::Verbatim if !must.contains(c) => out.push(c),
         LitForm::Verbatim | LitForm::Backslash => {
             if c.is_ascii_punctuation() && c != '<' && c != '>' {
@@ -518,9 +529,10 @@ fn tr_items(item: &ast::ClassSetItem, out: &mut Vec<ClassItem>) -> Result<(), Un
         I::Empty(_) => {}
         I::Literal(l) => {
             if l.c == '.' && l.kind == ast::LiteralKind::Verbatim {
-                return Err(Unsupported::BareDotInClass);
+                out.push(ClassItem::Lit('.', LitForm::BareDot));
+            } else {
+                out.push(ClassItem::Lit(l.c, lit_form(&l.kind)))
             }
-            out.push(ClassItem::Lit(l.c, lit_form(&l.kind)))
         }
         I::Range(r) => {
             out.push(ClassItem::Range(r.start.c, r.end.c));
@@ -673,6 +685,7 @@ pub fn parse_supported(pattern: &str) -> Rx {
 
 fn norm_item(it: &ClassItem) -> ClassItem {
     match it {
+        ClassItem::Lit('.', LitForm::BareDot) => it.clone(),
         ClassItem::Lit(c, _) => ClassItem::Lit(*c, LitForm::Verbatim),
         ClassItem::Bracket(b) => ClassItem::Bracket(Box::new(norm_bracket(b))),
         other => other.clone(),
